@@ -528,8 +528,12 @@ def run_reuse_subprocess(args: list, cwd=None, env: dict | None = None, timeout:
     e["PYTHONPATH"] = str(REPO / "src")
     if env:
         e.update(env)
-    p = subprocess.run([sys.executable, "-m", "reuse", *[str(a) for a in args]], cwd=cwd, env=e,
-                       capture_output=True, text=True, timeout=timeout)
+    try:
+        p = subprocess.run([sys.executable, "-m", "reuse", *[str(a) for a in args]], cwd=cwd, env=e,
+                           capture_output=True, text=True, timeout=timeout)
+    except subprocess.TimeoutExpired:
+        # a command that does not terminate is an observation, not a failure of the machinery
+        return {"exit": -9, "out": "", "err": "", "exc": f"TIMEOUT: the command did not terminate within {timeout} s"}
     exc = None
     if "Traceback (most recent call last)" in p.stderr:
         exc = p.stderr[-1500:]
